@@ -133,3 +133,22 @@ pub fn good_decode_flags(p: &[u8]) -> Result<(u8, &[u8]), String> {
     if p.is_empty() { return Err("empty".into()); }
     let flags = p[0]; let data = &p[1..]; Ok((flags, data))
 }
+
+// merge-shaped comparison: only correct on sorted inputs
+pub fn bad_merge_unsorted(a: &[u64], b: &[u64]) -> Vec<u64> {
+    let mut out = Vec::new(); let (mut i, mut j) = (0, 0);
+    while i < a.len() && j < b.len() {
+        match a[i].cmp(&b[j]) { std::cmp::Ordering::Less => i += 1, std::cmp::Ordering::Greater => j += 1,
+            std::cmp::Ordering::Equal => { out.push(a[i]); i += 1; j += 1; } }
+    }
+    out
+}
+pub fn good_merge_sorted(a: &[u64], b: &[u64]) -> Vec<u64> {
+    let mut a = a.to_vec(); let mut b = b.to_vec(); a.sort_unstable(); b.sort_unstable();
+    let mut out = Vec::new(); let (mut i, mut j) = (0, 0);
+    while i < a.len() && j < b.len() {
+        match a[i].cmp(&b[j]) { std::cmp::Ordering::Less => i += 1, std::cmp::Ordering::Greater => j += 1,
+            std::cmp::Ordering::Equal => { out.push(a[i]); i += 1; j += 1; } }
+    }
+    out
+}
